@@ -1,7 +1,7 @@
 package main
 
 // Channels. A channel is a reference with ghost state
-//   sent(ch), recvd(ch) : how many values have been sent / received so far
+//   chsent(ch), chrecvd(ch) : how many values have been sent / received so far
 //   chlog(ch, i)        : the i-th value sent (channels are FIFO: the i-th receive yields the i-th value sent)
 //   chclosed(ch)        : close(ch) has happened
 // A send appends to the log; a receive reads the log at index recvd(ch) (an unconstrained value unless the same
@@ -17,8 +17,8 @@ import (
 
 func (un *Unit) chComps(elem types.Type) (sent, recvd, closed, log string) {
 	s := un.u.sortOf(elem)
-	sent = un.comp("G_sent", arraySort("Int", "Int"), "ghost")
-	recvd = un.comp("G_recvd", arraySort("Int", "Int"), "ghost")
+	sent = un.comp("G_chsent", arraySort("Int", "Int"), "ghost")
+	recvd = un.comp("G_chrecvd", arraySort("Int", "Int"), "ghost")
 	closed = un.comp("G_chclosed", arraySort("Int", "Bool"), "ghost")
 	log = un.comp("G_chlog_"+sanitize(s), arraySort("Int", arraySort("Int", s)), "ghost")
 	return
